@@ -747,6 +747,7 @@ inline ClassAdapter<PPL::PIP_Problem> pip_tree_adapter() {
   VX_MUT("add_constraint(i+j<=n)", [i, j, n](D& p, const D*) { p.add_constraint(i + j <= n); return std::string(); });
   VX_MUT("add_constraint(2i+3j>=m-1)", [i, j, m](D& p, const D*) { p.add_constraint(2 * i + 3 * j >= m - 1); return std::string(); });
   VX_MUT("add_constraint(n<=5)", [n](D& p, const D*) { p.add_constraint(n <= 5); return std::string(); });
+  VX_MUT("add_constraint(m<=1)", [m](D& p, const D*) { p.add_constraint(m <= 1); return std::string(); });     // makes a 'then' branch unfeasible: the 'else' subtree is merged into its parent
   VX_MUT("add_constraint(2m>=n+1)", [n, m](D& p, const D*) { p.add_constraint(2 * m >= n + 1); return std::string(); });
   VX_MUT("add_constraint(3i==n)", [i, n](D& p, const D*) { p.add_constraint(3 * i == n); return std::string(); });
   VX_MUT("add_constraints({i>=0,j>=0})", [i, j](D& p, const D*) { PPL::Constraint_System cs; cs.insert(i >= 0); cs.insert(j >= 0); p.add_constraints(cs); return std::string(); });
